@@ -294,6 +294,9 @@ class Project:
       k_t = 0
       if expand.get('temps'):
         k_t = sum(normalise.eliminate_temps(f.node) for f in fns)
+        kf = sum(normalise.fold_constant_branches(f.node) for f in fns)
+        if kf:
+          self.inlined.append(f'{kf} branch(es) on a constant flag folded')
       if expand.get('loops'):
         ku = sum(normalise.unroll_literal_loops(f.node) for f in fns)
         if ku:
